@@ -21,8 +21,12 @@ def main():
     buf = io.BytesIO()
     with gzip.GzipFile(fileobj=buf, mode='wb') as g:
         pickle.dump(({'v': 'NEW'}, ('e', 9, 1), ('e', 8, 1), set()), g)       # the leader's snapshot of position 9
-    assert s.setTransmissionData((buf.getvalue(), True, True)) is True        # received completely: installed by the caller
-    installed = s.deserialize()[1][1]
+    assert s.setTransmissionData((buf.getvalue(), True, True)) is True        # received completely ...
+    if hasattr(s, 'acceptTransmission'):
+        installed = s.deserialize(incoming=True)[1][1]
+        s.acceptTransmission()                                                # ... and installed by the caller
+    else:
+        installed = s.deserialize()[1][1]
     for _ in range(50):
         time.sleep(0.1)
         if s.checkSerializing()[0] != SERIALIZER_STATE.SERIALIZING:
